@@ -44,6 +44,9 @@ def cases(tier):
     # the peer announces an empty node ID
     out.append(dict(role='active', require_tls='none', dnsname=1, emptynode=1))
     out.append(dict(role='passive', require_tls='true', dnsname=0, emptynode=1))
+    # the TLS peer presents no certificate at all (a passive entity only asks for one)
+    out.append(dict(role='passive', require_tls='none', dnsname=0, nocert=1))
+    out.append(dict(role='passive', require_tls='true', dnsname=0, nocert=1))
     return out
 
 
@@ -110,6 +113,8 @@ class TlsSock(object):
         return ('TLS_MODEL', 'TLSv1.3', 256)
 
     def getpeercert(self, binary_form=False):
+        if getattr(self, 'nocert', False):
+            return None
         return b'model-der' if binary_form else {}
 
     def __getattr__(self, name):
@@ -137,7 +142,7 @@ def harness(case, tier):
     refs = {'ip': ipaddress.ip_address(PEER_IP), 'dns': PEER_DNS, 'uri': node}
     match = {}
     for kind in ('ip', 'dns', 'uri'):
-        n = c.choose(nmax + 1, 'san-count-' + kind)
+        n = 0 if case.get('nocert') else c.choose(nmax + 1, 'san-count-' + kind)
         items = []
         for j in range(n):
             v = c.sym_int('%s%d' % (kind, j), 0, 0 if (kind == 'uri' and not node) else 1)   # a URI name is never empty
@@ -152,6 +157,7 @@ def harness(case, tier):
     class Ctx_(object):
         def wrap_socket(self, sock, **kw):
             t = TlsSock(sock, hs_ok)
+            t.nocert = bool(case.get('nocert'))
             tls_used.append(t)
             return t
     cfg.get_ssl_context = lambda: Ctx_()
@@ -159,7 +165,12 @@ def harness(case, tier):
     # environment: the X.509 parser returns the model certificate
     real_x509 = S.x509
     shim = types.SimpleNamespace(**{k: getattr(real_x509, k) for k in dir(real_x509) if not k.startswith('__')})
-    shim.load_der_x509_certificate = lambda der, backend=None: ModelCert(real_x509, lists)
+    def load_der(der, backend=None):
+        if not isinstance(der, (bytes, bytearray)):
+            # as cryptography does for anything but octets (e.g. None: the peer presented no certificate)
+            raise TypeError("argument 'data': 'NoneType' object cannot be converted to 'PyBytes'")
+        return ModelCert(real_x509, lists)
+    shim.load_der_x509_certificate = load_der
     S.x509 = shim
     try:
         return run(c, S, case, cfg, passive, this_can, peer_can, hs_ok, req, req_host, req_node, match, lists, node)
